@@ -278,7 +278,8 @@ class SchemaGen:
 
     def fresh(self, prefix: str) -> str:
         self.counter += 1
-        return f"{prefix}{chr(65 + self.counter % 26)}{'abcdefghij'[self.counter // 26 % 10]}{self.counter}"
+        c = self.counter
+        return f"{prefix}{chr(65 + c % 26)}{chr(97 + c // 26 % 26)}{chr(97 + c // 676 % 26)}"
 
     def width(self) -> int:
         r = self.rng
@@ -308,7 +309,7 @@ class SchemaGen:
             vals = [0] + vals[: max(0, k - 1)]
         name = self.fresh("En")
         up = "".join(("_" + c if c.isupper() and i else c) for i, c in enumerate(name)).upper()
-        members = [(f"{up}_V{i}", v) for i, v in enumerate(vals)]
+        members = [(f"{up}_V{chr(65 + i)}", v) for i, v in enumerate(vals)]
         return EnumDef(name, n, members, parent)
 
     def scalar(self) -> Any:
